@@ -30,6 +30,12 @@ def miri(name, cmd, config, procs, of, timeout=1500, miriflags=None, **args):
     return d
 
 
+def wasm(name, cmd, procs=8, timeout=1200, **args):
+    """wasm32 + simd128 under node/V8 - optional engine."""
+    return {"name": name, "kind": "wasm", "config": "wasm", "cmd": cmd, "procs": procs, "bitmap": False,
+            "timeout": timeout, "args": args, "optional_tool": "node"}
+
+
 def distinct_note():
     return (" A case is one monitored interaction (entry point, haystack bytes, needle bytes, arguments, operation "
             "string); distinct_nontrivial = popcount of the OR-merged 2^27-bit bitmap of case hashes over the "
@@ -62,6 +68,7 @@ def byte_plan(cmd, oracle):
             native("native", cmd, bitmap=True),
             native("native-sse2-dispatch", cmd, procs=4, force=1, only="top"),
             native("native-fallback-dispatch", cmd, procs=4, force=2, only="top"),
+            wasm("wasm-simd128", cmd),
             miri("miri-x86_64", cmd, "miri-x86_64", procs=8, of=700),
             miri("miri-aarch64-neon", cmd, "miri-aarch64", procs=8, of=700),
             miri("miri-s390x-be", cmd, "miri-s390x", procs=4, of=300),
@@ -73,6 +80,7 @@ def byte_plan(cmd, oracle):
             native("native-fallback-dispatch", cmd, force=2, only="top", timeout=7200),
             native("native-avx2-compiletime", cmd, config="relavx2", only="top", timeout=7200),
             native("native-nostd", cmd, config="relcore", only="top", timeout=7200),
+            wasm("wasm-simd128", cmd, procs=16, timeout=7200),
             # thorough: the whole boundary-focused sample on every target
             miri("miri-x86_64", cmd, "miri-x86_64", procs=16, of=16, timeout=7200),
             miri("miri-x86_64-avx2", cmd, "miri-x86_64-avx2", procs=16, of=16, timeout=7200),
@@ -111,6 +119,7 @@ def sub_plan(cmd, oracle):
             native("native", cmd, bitmap=True),
             native("native-sse2", cmd, procs=8, force=1),
             native("native-fallback", cmd, procs=8, force=2),
+            wasm("wasm-simd128", cmd),
             miri("miri-x86_64", cmd, "miri-x86_64", procs=8, of=600),
             miri("miri-aarch64-neon", cmd, "miri-aarch64", procs=8, of=600),
         ],
@@ -119,6 +128,7 @@ def sub_plan(cmd, oracle):
             native("native-sse2", cmd, force=1, timeout=7200),
             native("native-fallback", cmd, force=2, timeout=7200),
             native("native-avx2-compiletime", cmd, config="relavx2", timeout=7200),
+            wasm("wasm-simd128", cmd, procs=16, timeout=7200),
             miri("miri-x86_64", cmd, "miri-x86_64", procs=16, of=64, timeout=3600),
             miri("miri-x86_64-avx2", cmd, "miri-x86_64-avx2", procs=16, of=64, timeout=3600),
             miri("miri-aarch64-neon", cmd, "miri-aarch64", procs=16, of=64, timeout=3600),
@@ -163,6 +173,7 @@ PLANS["C05"] = {
     "quick": (
         [native("fault-reporter-selftest", "selftest-fault", procs=1)]
         + c05_native("rel", 1200)
+        + [wasm("wasm-memend-%s" % p_, "C05", part=p_, **{"as": "C05"}) for p_ in ("bytes", "iters", "sub", "blocks")]
         + [miri("miri-x86_64-rel-mismatch", "C05", "miri-x86_64-rel", procs=6, of=40, part="mismatch"),
            miri("miri-x86_64-rel-bytes", "C05", "miri-x86_64-rel", procs=6, of=3000, part="bytes"),
            miri("miri-aarch64-rel-bytes", "C05", "miri-aarch64-rel", procs=4, of=3000, part="bytes")]
@@ -172,6 +183,7 @@ PLANS["C05"] = {
         + c05_native("rel", 7200)
         + c05_native("plain", 7200)
         + c05_native("relavx2", 7200)
+        + [wasm("wasm-memend-%s" % p_, "C05", procs=16, timeout=7200, part=p_, **{"as": "C05"}) for p_ in C05_PARTS]
         + [native("asan-%s" % p, "C05", config="asan", kind="asan", timeout=7200, part=p, place="heap", **{"as": "C05"})
            for p in C05_PARTS]
         + [miri("miri-%s-%s" % (cfg.replace("miri-", ""), part), "C05", cfg, procs=procs, of=of, timeout=5400, part=part)
@@ -194,6 +206,7 @@ def iter_plan(cmd, rule, oracle, ofq, oft):
             native("native", cmd, bitmap=True),
             native("native-sse2-dispatch", cmd, procs=4, force=1, only="top"),
             native("native-fallback-dispatch", cmd, procs=4, force=2, only="top"),
+            wasm("wasm-simd128", cmd),
             miri("miri-x86_64", cmd, "miri-x86_64", procs=6, of=ofq),
             miri("miri-aarch64-neon", cmd, "miri-aarch64", procs=6, of=ofq),
         ],
@@ -201,6 +214,7 @@ def iter_plan(cmd, rule, oracle, ofq, oft):
             native("native", cmd, bitmap=True, timeout=7200),
             native("native-sse2-dispatch", cmd, force=1, only="top", timeout=7200),
             native("native-fallback-dispatch", cmd, force=2, only="top", timeout=7200),
+            wasm("wasm-simd128", cmd, procs=16, timeout=7200),
             miri("miri-x86_64", cmd, "miri-x86_64", procs=16, of=oft, timeout=3600),
             miri("miri-x86_64-avx2", cmd, "miri-x86_64-avx2", procs=16, of=oft, timeout=3600),
             miri("miri-aarch64-neon", cmd, "miri-aarch64", procs=16, of=oft, timeout=3600),
@@ -270,12 +284,14 @@ PLANS["C09"] = {
     "assumptions": ["out of reach: x86_64 built without SSE2, aarch64 without NEON, aarch64_be, wasm32 simd128 (no executor in this sandbox that the brief lists); stated as not_run in the evidence"],
     "quick": (
         [native("cfg-" + n, "C09", config=c, bitmap=(i == 0), transcript="auto", **a) for i, (n, c, a) in enumerate(C09_NATIVE)]
+        + [wasm("cfg-wasm32-simd128", "C09", procs=16, transcript="auto")]
         + [native("cfgB-default-native", "C09", config="rel", procs=640, tier="miri", transcript="auto"),
            miri("cfgB-miri-aarch64-neon", "C09", "miri-aarch64", procs=8, of=640, transcript="auto"),
            miri("cfgB-miri-s390x-be", "C09", "miri-s390x", procs=6, of=640, transcript="auto")]
     ),
     "thorough": (
         [native("cfg-" + n, "C09", config=c, bitmap=(i == 0), timeout=7200, transcript="auto", **a) for i, (n, c, a) in enumerate(C09_NATIVE)]
+        + [wasm("cfg-wasm32-simd128", "C09", procs=16, transcript="auto", timeout=7200)]
         + [native("cfgB-default-native", "C09", config="rel", procs=640, tier="miri", transcript="auto"),
            miri("cfgB-miri-aarch64-neon", "C09", "miri-aarch64", procs=64, of=640, transcript="auto", timeout=5400),
            miri("cfgB-miri-s390x-be", "C09", "miri-s390x", procs=64, of=640, transcript="auto", timeout=5400),
@@ -283,7 +299,7 @@ PLANS["C09"] = {
            miri("cfgB-miri-x86_64-sse2", "C09", "miri-x86_64", procs=32, of=640, transcript="auto", timeout=5400),
            miri("cfgB-miri-x86_64-avx2", "C09", "miri-x86_64-avx2", procs=32, of=640, transcript="auto", timeout=5400)]
     ),
-    "not_run": ["x86_64 without SSE2", "aarch64 without NEON", "aarch64_be", "wasm32+simd128"],
+    "not_run": ["x86_64 without SSE2", "aarch64 without NEON", "aarch64_be", "wasm32 without simd128", "wasm32+simd128 when node is absent"],
 }
 
 # ---------------------------------------------------------------------------
@@ -298,6 +314,7 @@ def sub3(cmd, rule, oracle, ofq, oft, cells=None):
             native("native", cmd, bitmap=True),
             native("native-sse2", cmd, procs=8, force=1),
             native("native-fallback", cmd, procs=8, force=2),
+            wasm("wasm-simd128", cmd),
             miri("miri-x86_64", cmd, "miri-x86_64", procs=6, of=ofq),
             miri("miri-aarch64-neon", cmd, "miri-aarch64", procs=6, of=ofq),
         ],
@@ -305,6 +322,7 @@ def sub3(cmd, rule, oracle, ofq, oft, cells=None):
             native("native", cmd, bitmap=True, timeout=7200),
             native("native-sse2", cmd, force=1, timeout=7200),
             native("native-fallback", cmd, force=2, timeout=7200),
+            wasm("wasm-simd128", cmd, procs=16, timeout=7200),
             miri("miri-x86_64", cmd, "miri-x86_64", procs=16, of=oft, timeout=3600),
             miri("miri-x86_64-avx2", cmd, "miri-x86_64-avx2", procs=16, of=oft, timeout=3600),
             miri("miri-aarch64-neon", cmd, "miri-aarch64", procs=16, of=oft, timeout=3600),
@@ -369,11 +387,13 @@ PLANS["C13"] = {
         native("native", "C13", bitmap=True),
         native("native-sse2", "C13", force=1),
         native("native-fallback", "C13", force=2),
+        wasm("wasm-simd128", "C13"),
     ],
     "thorough": [
         native("native", "C13", bitmap=True, timeout=7200),
         native("native-sse2", "C13", force=1, timeout=7200),
         native("native-fallback", "C13", force=2, timeout=7200),
+        wasm("wasm-simd128", "C13", procs=16, timeout=7200),
     ],
 }
 
@@ -463,6 +483,7 @@ PLANS["C16"] = {
     "quick": [
         native("native", "C16", bitmap=True),
         native("native-fallback", "C16", procs=8, force=2),
+        wasm("wasm-simd128", "C16"),
         miri("miri-x86_64", "C16", "miri-x86_64", procs=6, of=60),
     ],
     "thorough": [
@@ -493,6 +514,7 @@ PLANS["C17"] = {
         native("native-sse2", "C17", procs=8, force=1),
         native("native-fallback", "C17", procs=8, force=2),
         native("native-alloc-feature-only", "C17", config="relalloc", procs=8),
+        wasm("wasm-simd128", "C17"),
     ],
     "thorough": [
         native("native", "C17", bitmap=True, timeout=7200),
@@ -517,6 +539,7 @@ PLANS["C18"] = {
     "quick": [
         native("native", "C18", bitmap=True),
         native("native-dbg", "C18", config="dbg", procs=8),
+        wasm("wasm32", "C18"),
         miri("miri-x86_64", "C18", "miri-x86_64", procs=4, of=32),
         miri("miri-s390x-be", "C18", "miri-s390x", procs=4, of=32),
     ],
@@ -540,6 +563,7 @@ PLANS["C19"] = {
     "quick": [
         native("native", "C19", bitmap=True),
         native("native-dbg", "C19", config="dbg", procs=8),
+        wasm("wasm-simd128", "C19"),
         miri("miri-x86_64", "C19", "miri-x86_64", procs=4, of=24),
     ],
     "thorough": [
